@@ -46,7 +46,7 @@ PROPS = {
         ],
         assumptions=['the open lock model abstracts the kernel: delivery of a scheduled wake-up is the action `resume`, any exception '
                      'thrown at the wait is `abort`; that the kernel delivers exactly these is shown by the exact trace correspondence, not proved'],
-        partial=['projection lemma machine -> open lock model is not proved (tied by correspondence only)'],
+        partial=['each piece of the machines lock code is proved to be the open models transition (Props/MachineLock.lean: release, enter, resume, exit, the release half of abort; hypotheses: the lock and its plain notification exist); that the kernel delivers only *enabled* actions (a wake-up only to the designated waiter, exit only by the owner) - the scheduling side of the projection - is not proved (tied by correspondence only)'],
     ),
     'C10': dict(
         gen=['Stream', 'Lock'], props=['C10', 'C09', 'MachineObjects', 'MachineQueue'], model=['Prim/Stream', 'Prim/Lock', 'Machine/Run', 'Judge/Judges', 'Lemmas/KView', 'Lemmas/OView', 'Lemmas/OStepFrames', 'Lemmas/OStep'], harness='c10',
